@@ -133,6 +133,9 @@ fn main() {
             let c = rt::ArtCase { name: "dbg".into(), module: ts.to_string(), types: vec![], extra: String::new() };
             let b = rt::build(&[c], "dbg", 0, false);
             println!("built={} failed={:?} other={:?}", b.exe.is_some(), b.failed, b.other_errors);
+            // restore the real case file (build() stubs failing cases out) and show rustc's words
+            let c2 = rt::ArtCase { name: "dbg".into(), module: ts.to_string(), types: vec![], extra: String::new() };
+            std::fs::write(b.dir.join("src/case_0.rs"), format!("#![allow(warnings)]\n{}\npub fn rt(_k: u32, _b: &[u8]) -> String {{ String::new() }}\n", c2.module)).unwrap();
             let out = std::process::Command::new("cargo").args(["build", "--offline"]).current_dir(&b.dir)
                 .env("CARGO_TARGET_DIR", rt::target_dir(0)).env("RUSTFLAGS", "-Awarnings").output().unwrap();
             println!("{}", String::from_utf8_lossy(&out.stderr));
